@@ -45,9 +45,18 @@ def verdicts(ctx, s):
         kind = m["fail"]["kind"]
         if kind == "error":
             continue
-        chain = any(st["op"].get("parent") == "same" for st in m["steps"])
+        # the unreadable root is part of a same-version chain (or, for other kinds of failure, the history contains one)
+        # (hist-empty: the root is in no chain and the chains of the history were built from the empty tree - on the pinned tree such
+        #  chains damage nothing, so the failure is judged like one of a history without chains)
+        chain = (m.get("chain_origin") or "") not in ("", "hist-empty") if m["fail"].get("root") else any(st["op"].get("parent") == "same" for st in m["steps"])
         keys = {"backend": m["backend"], "kind": kind if kind not in ("finalized-unreadable", "pending-unreadable") else "unreadable",
                 "shares_kv_with_other_root": m["shares_kv_with_other_root"], "same_version_chain": chain}
+        if chain:
+            # where the chain of the unreadable root starts: on the pinned tree only roots of chains that start from a root of
+            # the previous version lose nodes (inherited ones the head of the chain removed); a chain built from the empty tree
+            # consists of nodes written in its own version, which Finalize keeps for every (transitively) finalized root
+            # (hist-*: the unreadable root is not in a chain itself, the history before it contains chains of that origin)
+            keys["chain_origin"] = {"prev": "prev", "hist-prev": "prev", "empty": "empty", "hist-empty": "empty"}.get(m.get("chain_origin"), "none")
         sig = json.dumps(keys, sort_keys=True)
         if sig in seen:
             continue
